@@ -1,6 +1,7 @@
 (** Facts about the SCAN family model (Model/Scan.v): what one call returns, progress of the
     cursor, static completeness of a full iteration, soundness, and completeness under
     modifications that leave the part of the sorted list before the cursor unchanged. *)
+From Coq Require Import Sorting.Sorted.
 From Ferrous Require Import Base.Bytes Model.Resp Model.Types Model.Glob Model.Strings Model.Scan
   Proofs.BytesFacts.
 Open Scope Z_scope.
@@ -309,4 +310,187 @@ Lemma eng_sscan_live now d key s cursor pat count :
 Proof.
   intros H. unfold eng_sscan, eng_get. rewrite H. unfold expired. simpl.
   destruct ((len s <=? scan_limit count) && (cursor =? 0) && negb (match pat with Some _ => true | None => false end)); reflexivity.
+Qed.
+
+(** ---- order on byte strings; sorted duplicate-free lists ---- *)
+Lemma bcmp_refl a : bcmp a a = Eq.
+Proof. induction a as [|x a IH]; simpl; [reflexivity|]. rewrite Z.compare_refl. exact IH. Qed.
+Lemma bcmp_eq : forall a b, bcmp a b = Eq -> a = b.
+Proof.
+  induction a as [|x a IH]; intros [|y b]; simpl; try discriminate; [reflexivity|].
+  destruct (x ?= y) eqn:E; try discriminate. apply Z.compare_eq in E. subst y.
+  intros H. f_equal. apply IH. exact H.
+Qed.
+Lemma bcmp_antisym : forall a b, bcmp b a = CompOpp (bcmp a b).
+Proof.
+  induction a as [|x a IH]; intros [|y b]; simpl; try reflexivity.
+  rewrite (Z.compare_antisym x y). destruct (x ?= y); simpl; auto.
+Qed.
+Lemma bcmp_lt_trans : forall a b c, bcmp a b = Lt -> bcmp b c = Lt -> bcmp a c = Lt.
+Proof.
+  induction a as [|x a IH]; intros [|y b] [|z c]; simpl; try discriminate; try reflexivity.
+  destruct (x ?= y) eqn:E1; try discriminate; destruct (y ?= z) eqn:E2; try discriminate; intros H1 H2.
+  - apply Z.compare_eq in E1, E2. subst. rewrite Z.compare_refl. eapply IH; eassumption.
+  - apply Z.compare_eq in E1. subst. rewrite E2. reflexivity.
+  - apply Z.compare_eq in E2. subst. rewrite E1. reflexivity.
+  - rewrite Z.compare_lt_iff in *. assert (x < z) by lia. apply Z.compare_lt_iff in H. rewrite H. reflexivity.
+Qed.
+Lemma bltb_trans a b c : bltb a b = true -> bltb b c = true -> bltb a c = true.
+Proof.
+  unfold bltb. destruct (bcmp a b) eqn:E1; try discriminate. destruct (bcmp b c) eqn:E2; try discriminate.
+  rewrite (bcmp_lt_trans _ _ _ E1 E2). reflexivity.
+Qed.
+Lemma bltb_irrefl a : bltb a a = false.
+Proof. unfold bltb. rewrite bcmp_refl. reflexivity. Qed.
+Lemma bleb_false_lt a b : bleb a b = false -> bltb b a = true.
+Proof. unfold bleb, bltb. rewrite (bcmp_antisym a b). destruct (bcmp a b); simpl; congruence. Qed.
+Lemma bleb_true_lt a b : bleb a b = true -> a <> b -> bltb a b = true.
+Proof.
+  unfold bleb, bltb. destruct (bcmp a b) eqn:E; try congruence. apply bcmp_eq in E. congruence.
+Qed.
+
+Definition BSorted (l : list bytes) : Prop := StronglySorted (fun a b => bltb a b = true) l.
+
+Lemma binsert_sorted x l : BSorted l -> ~ In x l -> BSorted (binsert x l).
+Proof.
+  induction 1 as [|y r S IH F]; simpl; intros N.
+  - constructor; constructor.
+  - destruct (bleb x y) eqn:E.
+    + assert (L : bltb x y = true) by (apply bleb_true_lt; [exact E | intros ->; apply N; simpl; auto]).
+      constructor; [constructor; assumption|]. constructor; [exact L|].
+      rewrite Forall_forall in *. intros z Hz. eapply bltb_trans; [exact L | apply F; exact Hz].
+    + apply bleb_false_lt in E. constructor; [apply IH; intros X; apply N; simpl; auto|].
+      rewrite Forall_forall in *. intros z Hz. apply In_binsert in Hz. destruct Hz as [->|Hz]; [exact E | apply F; exact Hz].
+Qed.
+Lemma bsort_sorted l : NoDup l -> BSorted (bsort l).
+Proof.
+  unfold bsort. induction 1 as [|y l N D IH]; simpl; [constructor|].
+  apply binsert_sorted; [exact IH|]. fold (bsort l). rewrite In_bsort. exact N.
+Qed.
+
+Lemma sorted_ext : forall l1 l2, BSorted l1 -> BSorted l2 -> (forall x, In x l1 <-> In x l2) -> l1 = l2.
+Proof.
+  induction l1 as [|a l1 IH]; intros l2 S1 S2 H.
+  - destruct l2 as [|b l2]; [reflexivity|]. exfalso. apply (H b). simpl. auto.
+  - destruct l2 as [|b l2]; [exfalso; apply (H a); simpl; auto|].
+    inversion S1 as [|? ? S1' F1]; inversion S2 as [|? ? S2' F2]; subst.
+    rewrite Forall_forall in F1, F2.
+    assert (a = b).
+    { destruct (proj1 (H a) (or_introl eq_refl)) as [E|E]; [congruence|].
+      destruct (proj2 (H b) (or_introl eq_refl)) as [E2|E2]; [congruence|].
+      pose proof (F2 _ E) as X. pose proof (F1 _ E2) as Y.
+      pose proof (bltb_trans _ _ _ X Y) as Z. rewrite bltb_irrefl in Z. discriminate. }
+    subst b. f_equal. apply IH; [assumption | assumption|].
+    intros x. split; intros Hx.
+    + destruct (proj1 (H x) (or_intror Hx)) as [E|E]; [|exact E].
+      subst x. pose proof (F1 _ Hx) as X. rewrite bltb_irrefl in X. discriminate.
+    + destruct (proj2 (H x) (or_intror Hx)) as [E|E]; [|exact E].
+      subst x. pose proof (F2 _ Hx) as X. rewrite bltb_irrefl in X. discriminate.
+Qed.
+
+Lemma filter_sorted f l : BSorted l -> BSorted (filter f l).
+Proof.
+  induction 1 as [|y r S IH F]; simpl; [constructor|].
+  destruct (f y); [|exact IH]. constructor; [exact IH|].
+  rewrite Forall_forall in *. intros z Hz. apply filter_In in Hz. apply F. tauto.
+Qed.
+
+(** the keys below the key at position p are exactly the first p *)
+Lemma sorted_below_nth : forall l p b, BSorted l -> nth_error l p = Some b ->
+  filter (fun x => bltb x b) l = firstn p l.
+Proof.
+  induction l as [|y r IH]; intros p b S H; [destruct p; discriminate|].
+  inversion S as [|? ? S' F]; subst. rewrite Forall_forall in F.
+  destruct p as [|p]; simpl in H.
+  - injection H as ->. simpl. rewrite bltb_irrefl.
+    assert (E : filter (fun x => bltb x b) r = []).
+    { clear -F. induction r as [|z r IH]; simpl; [reflexivity|].
+      assert (X : bltb z b = false).
+      { destruct (bltb z b) eqn:E; [|reflexivity]. pose proof (F z (or_introl eq_refl)) as Y.
+        pose proof (bltb_trans _ _ _ E Y) as Z. rewrite bltb_irrefl in Z. discriminate. }
+      rewrite X. apply IH. intros w Hw. apply F. simpl. auto. }
+    exact E.
+  - simpl. assert (In b r) by (eapply nth_error_In; exact H).
+    rewrite (F _ H0). f_equal. apply IH; assumption.
+Qed.
+
+(** if the two lists have the same keys below b = L[p], their first p entries coincide *)
+Lemma sorted_prefix_stable L L' p b :
+  BSorted L -> BSorted L' -> nth_error L p = Some b ->
+  (forall x, bltb x b = true -> (In x L <-> In x L')) ->
+  firstn p L' = firstn p L.
+Proof.
+  intros S S' Hn H.
+  assert (E : filter (fun x => bltb x b) L' = filter (fun x => bltb x b) L).
+  { apply sorted_ext; try (apply filter_sorted; assumption).
+    intros x. rewrite !filter_In. split; intros [A B]; (split; [apply (H x B); exact A | exact B]). }
+  rewrite (sorted_below_nth L p b S Hn) in E.
+  (* the keys of L' below b form a prefix of L' of the same length *)
+  assert (P : forall l, BSorted l -> filter (fun x => bltb x b) l = firstn (length (filter (fun x => bltb x b) l)) l).
+  { induction l as [|y r IH]; intros Sl; simpl; [reflexivity|].
+    inversion Sl as [|? ? Sr F]; subst. rewrite Forall_forall in F.
+    destruct (bltb y b) eqn:Y; simpl; [f_equal; apply IH; exact Sr|].
+    assert (X : filter (fun x => bltb x b) r = []).
+    { clear -F Y. induction r as [|z r IH]; simpl; [reflexivity|].
+      assert (Z : bltb z b = false).
+      { destruct (bltb z b) eqn:E; [|reflexivity]. pose proof (F z (or_introl eq_refl)) as W.
+        pose proof (bltb_trans _ _ _ W E) as V. congruence. }
+      rewrite Z. apply IH. intros w Hw. apply F. simpl. auto. }
+    rewrite X. reflexivity. }
+  pose proof (P L' S') as Q. rewrite E in Q.
+  assert (LP : length (firstn p L) = p).
+  { apply firstn_length_le. apply Nat.lt_le_incl. apply nth_error_Some. congruence. }
+  rewrite LP in Q. symmetry. exact Q.
+Qed.
+
+(** the hypothesis of DESIGN's c19_concurrent_partial: between two calls, every key that was
+    added or removed sorts at or after the key at the cursor *)
+Fixpoint order_stable (pat : option bytes) (cnt : nat -> Z) (lists : list (list bytes)) (k : nat) (cursor : Z) : Prop :=
+  match lists with
+  | [] => True
+  | L :: rest =>
+      let next := fst (scan_core (fun x => x) L cursor (cnt k) pat) in
+      match rest with
+      | [] => True
+      | L' :: _ =>
+          (forall b, znth next L = Some b -> forall x, bltb x b = true -> (In x L <-> In x L')) /\
+          order_stable pat cnt rest (S k) next
+      end
+  end.
+
+Lemma order_stable_prefix pat cnt : forall lists k cursor,
+  (forall i, 0 <= cnt i) -> 0 <= cursor -> Forall BSorted lists ->
+  order_stable pat cnt lists k cursor -> prefix_stable (fun x => x) pat cnt lists k cursor.
+Proof.
+  induction lists as [|L rest IH]; intros k cursor Hcnt Hc FS OS; simpl; [exact I|].
+  destruct rest as [|L' rest']; [exact I|].
+  simpl in OS. destruct OS as [O1 O2].
+  inversion FS as [|? ? SL FS']; subst. inversion FS' as [|? ? SL' _]; subst.
+  pose proof (scan_core_progress (fun x => x) L cursor (cnt k) pat Hc (Hcnt k)) as Pg. simpl in Pg.
+  set (next := fst (scan_core (fun x => x) L cursor (cnt k) pat)) in *.
+  split.
+  - destruct Pg as [Z0|[P1 P2]]; [rewrite Z0; reflexivity|].
+    unfold zfirstn.
+    assert (HN : exists b, nth_error L (Z.to_nat next) = Some b).
+    { destruct (nth_error L (Z.to_nat next)) eqn:E; [eauto|]. apply nth_error_None in E. unfold len in P2. lia. }
+    destruct HN as [b Hb].
+    apply (sorted_prefix_stable L L' _ b SL SL' Hb).
+    apply O1. unfold znth. destruct (Z.ltb_spec next 0); [lia | exact Hb].
+  - apply IH; try assumption. destruct Pg; lia.
+Qed.
+
+Definition scan_order_stable (states : list (Z * db)) (pat tf : option bytes) (cnt : nat -> Z) : Prop :=
+  order_stable pat cnt (map (fun st => live_keys (fst st) (snd st) tf) states) 0 0.
+
+Lemma scan_dynamic_partial_order states pat tf cnt keys Lf k :
+  (forall i, 0 <= cnt i) -> (forall st, In st states -> NoDup (map fst (d_data (snd st)))) ->
+  scan_order_stable states pat tf cnt ->
+  scan_dynamic states pat tf cnt = (keys, Some Lf) ->
+  (forall st, In st states -> key_visible (fst st) (snd st) tf k) -> key_matches pat k = true ->
+  In k keys.
+Proof.
+  intros Hcnt ND OS. apply scan_dynamic_partial; [exact Hcnt|].
+  apply order_stable_prefix; try assumption; [lia|].
+  apply Forall_forall. intros L HL. apply in_map_iff in HL. destruct HL as [st [<- Hst]].
+  apply bsort_sorted, NoDup_map_filter, ND. exact Hst.
 Qed.
